@@ -41,7 +41,7 @@ func dumpDB(db chain.DB) string {
 // Observations after every call and the complete bucket dumps must be identical.
 func chainReplayC17(c *Ctx) {
 	res := c.Res
-	bes := c17Backends(res.Dir())
+	bes := c17Backends(res.Dir() + "/chain")
 	n := c.Scale(12, 200)
 	for i := 0; i < n; i++ {
 		r := c.R.Fork()
@@ -51,7 +51,8 @@ func chainReplayC17(c *Ctx) {
 		var ref []mgrsim.Obs
 		var refDump, refName string
 		for _, be := range bes {
-			db, done := be.open()
+			sess := be.open()
+			db, done := sess.db, sess.done
 			s := mgrsim.NewSim(t, db)
 			var obs []mgrsim.Obs
 			for _, op := range plan {
